@@ -5,6 +5,7 @@ import json
 import os.path
 import random
 
+import c03_hostcase
 import c03_invisible
 import c03_requote
 import canon_common as cc
@@ -66,7 +67,10 @@ RULE = (
     "byte of the REGENERATED UNSAFE_FOR_* sets, spelled raw / %XX / %xx in a query value of a repeated key, a key, a "
     "lone key, next to a sibling item that continues with a character between '%' and the character in code-point "
     "order (nearest to either end and the middle one; thorough: all), and in path segments / index file / fragment / "
-    "tracking key; [otherwise] "
+    "tracking key; [stream 'hostcase', harness/c03_hostcase.py] a host label holding a character on which str.lower / "
+    "str.casefold / str.upper().lower() / NFKC+lower of the running interpreter differ (classes derived from str and "
+    "unicodedata over U+0080-U+1FFFF; quick: the ends of every run of code points, one of 4 host shapes each; thorough: "
+    "all), spelled as itself / lower / upper / case-folded / upper-then-lower / NFKC / swapcase and as xn-- labels; [otherwise] "
     "a base URL (structured components over the quantifier's token "
     "alphabet, normalize-specific hosts / tails / tracking items) and up to 4 members obtained by "
     "compositions of <= 3 spelling transformations — C02's (scheme/host case, explicit default port, "
@@ -306,6 +310,10 @@ def cases(rng, tier):
     # quoted mode: what safely_quote escapes / what the unquoters keep escaped, raw and escaped, next to a
     # sibling item that sorts between the two spellings (characters from the tree under test: harness/c03_requote.py)
     for c in c03_requote.cases(tier):
+        yield c
+    # hosts written in Unicode with a character on which str.lower / str.casefold / str.upper().lower() / NFKC differ
+    # (derived from the running interpreter: harness/c03_hostcase.py), every spelling, raw and as xn-- label
+    for c in c03_hostcase.cases(tier):
         yield c
     c02 = sorted(urlgen.C02_TRANSFORMS)
     nts = sorted(N_TRANSFORMS)
@@ -711,17 +719,22 @@ def classify(case):
 # real decode_punycode_hostname, over the enumerated class of ACE labels, on every run (shared:
 # harness/punylaws.py; a failure is reported as a broken obligation `law`)
 RUN_OBLIGATION_GROUPS = ('PunyLaws', 'PunyClean')
-RUN_OBLIGATIONS = "%s of the real label decoder over the enumerated ACE label class of harness/punylaws.py" % " + ".join(RUN_OBLIGATION_GROUPS)
+RUN_OBLIGATIONS = (
+    "%s of the real label decoder over the enumerated ACE label class of harness/punylaws.py; HostCase.absorb / HostCase.merge "
+    "(harness/c03_hostcase.py) of the real canonicalize_url / normalize_url / fingerprint_url over every character on which "
+    "str.lower, str.casefold, str.upper().lower() and NFKC differ (derived from the running interpreter), in a host label, every spelling"
+    % " + ".join(RUN_OBLIGATION_GROUPS)
+)
 
 
 TRUSTED = list(TRUSTED) + [
     "the label decoder `puny` = the real decode_punycode_hostname on one label (harness/punylaws.py: decode_label; the per-case tables come from it); "
-    + RUN_OBLIGATIONS + ": hypotheses of the theorems, evaluated on every run (broken obligation `law` when one fails), not proved of CPython's idna codec"
+    + RUN_OBLIGATIONS + ": hypotheses of the theorems (the model maps the host's letter case with ONE function, ASCII lower-casing, in all three "
+    "schemes), evaluated on every run (broken obligation `law` when one fails), not proved of CPython's idna codec / str.lower"
 ]
 
 
 def run_obligations(tier):
     import punylaws
 
-    return punylaws.run_obligations(RUN_OBLIGATION_GROUPS, tier)
-
+    return punylaws.run_obligations(RUN_OBLIGATION_GROUPS, tier) + c03_hostcase.run_obligations(tier)
